@@ -178,6 +178,8 @@ def oracle_replace(ctx, rng):
             del kw["freq"]
         if not kw:
             kw["count"] = rng.randint(0, 9)
+        if ("byweekday" in kw or "byweekday" in p) and kw.get("interval", p["interval"]) % 7 == 0:
+            kw["interval"] = 2
         cache = rng.random() < 0.5
         r = rrlib.make_rule(p, cache)
         if rng.random() < 0.5:
